@@ -814,6 +814,13 @@ def inline_helpers(facts_json, anchors=None):
     by_path = {}
     for f in facts_json["fns"]:
         by_path.setdefault(f["path"], f)
+    # a function that plays an anchor's role under another name stays a function: the reserved-key validator is
+    # the private free function (key: &[u8], value: &[u8]) -> Result<(), _> (rules find it by that role)
+    if "check_spec_reserved_keys" not in by_path:
+        cands = [f for f in facts_json["fns"] if f["kind"] == "Fn" and len(f.get("inputs") or []) == 2 and all(i.get("s") == "&[u8]" for i in f["inputs"]) and "Result<()" in ((f.get("output") or {}).get("s") or "")]
+        if len(cands) == 1:
+            anchors = set(anchors) | {cands[0]["path"]}
+            facts_json["role_anchors"] = {"validator": cands[0]["path"]}
     stats = {}
     desugar_parse(facts_json)
     desugar_struct_update(facts_json)
